@@ -928,3 +928,23 @@ Proof.
     destruct (match c_query c with Some _ => _ | None => false end && _); [reflexivity|].
     apply write_segment_safe; auto.
 Qed.
+
+(** * The chunked writer: how long it can sleep *)
+(** chunkSegment gives a last partial chunk the duration chunkDur: the last chunk becomes available
+    less than one chunk duration after the end of the segment. *)
+Lemma last_chunk_bound durT chunkDur : 0 < chunkDur -> 0 <= durT ->
+  durT <= (durT + chunkDur - 1) / chunkDur * chunkDur < durT + chunkDur.
+Proof.
+  intros C D. pose proof (Z.div_mod (durT + chunkDur - 1) chunkDur ltac:(lia)).
+  pose proof (Z.mod_pos_bound (durT + chunkDur - 1) chunkDur C). lia.
+Qed.
+
+(** With the guard of /repo 6ca1ef6 (0 <= ato < segment duration, in whole milliseconds: atoMS) the
+    chunk duration is positive, and a request that CheckTimeValidity admits (the segment ends at most
+    atoMS after now) sleeps less than the segment duration plus one chunk duration: in milliseconds,
+    if endMS - nowMS <= atoMS and the last chunk comes less than chunkMS after endMS, then
+    sleep < atoMS + chunkMS = segDurMS. *)
+Lemma chunk_sleep_bounded segDurMS atoMS endMS nowMS lastMS :
+  0 <= atoMS < segDurMS -> endMS - nowMS <= atoMS -> lastMS < endMS + (segDurMS - atoMS) ->
+  lastMS - nowMS < segDurMS.
+Proof. lia. Qed.
